@@ -170,6 +170,12 @@ Definition expected_rec (c : claim) : list bool :=
 Definition fault_free (ops : list aop) : bool :=
   forallb (fun o => match o with ARec _ FNone => true | ARec _ _ => false | _ => true end) ops.
 
+(* API faults after which the reconcile is simply retried with nothing recorded: a rejected NodePool status patch
+   and a rejected Node patch *)
+Definition benign_fault (f : fault) : bool := match f with FNone | FPoolConflict | FNodePatch => true | _ => false end.
+Definition benign (ops : list aop) : bool :=
+  forallb (fun o => match o with ARec _ f => benign_fault f | _ => true end) ops.
+
 Definition recorded_once (c : claim) : bool :=
   match c_rec c, expected_rec c with
   | [], [] => true
